@@ -37,6 +37,17 @@ func (c14) Gen(tier string, seed int64, emit func([]Ev)) {
 				pmt = q
 			}
 		}
+		if ns >= 3 && si%5 == 2 {
+			// elementary PIDs that differ from one another in a single bit (every bit position in turn): a membership
+			// test that folds or hashes PIDs confuses exactly such neighbours
+			base := 0x20 + r.Intn(0x1f00)
+			for i := range pmt.Streams {
+				pmt.Streams[i].Pid = base
+				if i > 0 {
+					pmt.Streams[i].Pid = base ^ (1 << uint((i-1+si)%13))
+				}
+			}
+		}
 		sec := pmtSection(pmt)
 		var pids []int
 		for _, s := range pmt.Streams {
@@ -96,6 +107,15 @@ func (c14) Gen(tier string, seed int64, emit func([]Ev)) {
 				}
 			}
 			reqs = append(reqs, q)
+		}
+		// every stream alone; single-bit neighbours of listed PIDs that are not in the table (they select nothing)
+		for k, p0 := range pids {
+			if len(pids) > 4 && k < 6 {
+				reqs = append(reqs, []int{p0})
+			}
+			if nb := p0 ^ (1 << uint(r.Intn(13))); k < 4 && !pmtPidIn(pids, nb) && nb != pmtPid && nb != 0 {
+				reqs = append(reqs, []int{nb, pids[(k+1)%len(pids)]})
+			}
 		}
 		a := absent()
 		reqs = append(reqs, []int{a}, []int{a, a}, []int{a, absent()}, []int{0}, []int{pmtPid}, []int{0, pmtPid, a})
